@@ -6,7 +6,7 @@ from lib.coqterm import cbool, cN, clist, copt
 
 ID = "C22"
 QUICK_N = 2500
-THOROUGH_N = 50000
+THOROUGH_N = 20000
 SHARD = 500
 RULE = ("Boundary stream (always): every bound of every IANA special-purpose block and of every CPython ipaddress "
         "table (and of ::ffff:0:0/96), each -1/+0/+1, as IPv4, as IPv4-mapped IPv6 and as plain IPv6, spelled by the "
